@@ -1,6 +1,7 @@
 package main
 
 import (
+	"os"
 	"fmt"
 	"go/token"
 	"go/types"
@@ -340,6 +341,13 @@ func (p *provEngine) compute(v ssa.Value) *sliceProv {
 			out := *base
 			for _, e := range elems {
 				src := elemSource(e)
+				var iterGuards map[string]bool
+				if src == nil {
+					// the element a range-over-func loop body receives: what the iterator yields
+					if ys, yg := p.yieldedFrom(e); ys != nil {
+						src, iterGuards = ys, yg
+					}
+				}
 				if src == nil {
 					return &sliceProv{Unknown: "appended element is not taken from a slice (" + e.Name() + ")", Guards: map[string]bool{}}
 				}
@@ -348,6 +356,9 @@ func (p *provEngine) compute(v ssa.Value) *sliceProv {
 					return &sliceProv{Unknown: "appended element comes from a slice of unknown provenance", Guards: map[string]bool{}}
 				}
 				g := guardsAt(x.Block(), e)
+				for k := range iterGuards {
+					g[k] = true
+				}
 				for k := range sp.Guards {
 					g[k] = true
 				}
@@ -470,6 +481,41 @@ func (p *provEngine) compute(v ssa.Value) *sliceProv {
 		return &sliceProv{Root: x, Guards: map[string]bool{}}
 	case *ssa.UnOp:
 		if x.Op == token.MUL {
+			if fv, ok := x.X.(*ssa.FreeVar); ok {
+				// the same cell seen from inside a closure (a range-over-func loop body appending to the outer variable)
+				fn := fv.Parent()
+				if fn.Parent() != nil {
+					var cell *ssa.Alloc
+					eachInstr(fn.Parent(), func(in ssa.Instruction) {
+						if mc, ok := in.(*ssa.MakeClosure); ok && mc.Fn == ssa.Value(fn) {
+							for i, f2 := range fn.FreeVars {
+								if f2 == fv && i < len(mc.Bindings) {
+									cell, _ = mc.Bindings[i].(*ssa.Alloc)
+								}
+							}
+						}
+					})
+					if cell != nil {
+						var acc *sliceProv
+						for _, st := range cellStores(cell) {
+							sp := p.of(st)
+							if sp == nil {
+								continue
+							}
+							if sp.Unknown != "" {
+								return sp
+							}
+							if acc == nil {
+								cp := *sp
+								acc = &cp
+							} else {
+								acc = joinProv(acc, sp)
+							}
+						}
+						return acc
+					}
+				}
+			}
 			if al, ok := x.X.(*ssa.Alloc); ok {
 				// local captured by a closure lives in a cell: the value is the join of everything stored into it
 				var acc *sliceProv
@@ -507,7 +553,7 @@ func blockPos(b *ssa.BasicBlock) token.Pos {
 			return b.Instrs[i].Pos()
 		}
 	}
-	for _, cf := range condFacts(b) {
+	for _, cf := range normFacts(condFacts(b)) {
 		if cf.If != nil && cf.If.Cond != nil {
 			if in, ok := cf.If.Cond.(ssa.Instruction); ok && in.Pos().IsValid() {
 				return in.Pos()
@@ -1047,4 +1093,176 @@ func (p *provEngine) compactionGuards(sl *ssa.Slice, base *sliceProv) (map[strin
 		return nil, false
 	}
 	return acc, true
+}
+
+// yieldedFrom: e is the parameter of a range-over-func loop body (`for ep := range eachRoutable(list) { … }` is lowered to
+// `eachRoutable(list)(func(ep) bool { … })`). Returns the slice — in the loop's function — whose elements the
+// iterator yields, and the predicates that hold for every yielded element (facts at the iterator's yield calls).
+func (p *provEngine) yieldedFrom(e ssa.Value) (ssa.Value, map[string]bool) {
+	prm, ok := e.(*ssa.Parameter)
+	if !ok {
+		return nil, nil
+	}
+	body := prm.Parent()
+	outer := body.Parent()
+	if outer == nil || len(body.Params) == 0 || body.Params[0] != prm {
+		return nil, nil
+	}
+	// outer: mc = make closure body; seq(mc) with seq = G(args)
+	var seqCall *ssa.Call
+	eachInstr(outer, func(in ssa.Instruction) {
+		call, ok := in.(*ssa.Call)
+		if !ok || len(call.Call.Args) != 1 {
+			return
+		}
+		if mc, ok := call.Call.Args[0].(*ssa.MakeClosure); ok && mc.Fn == ssa.Value(body) {
+			if sc, ok := call.Call.Value.(*ssa.Call); ok {
+				seqCall = sc
+			}
+		}
+	})
+	if seqCall == nil {
+		return nil, nil
+	}
+	g := seqCall.Call.StaticCallee()
+	if g == nil || g.Blocks == nil || !p.c.inRepo(g) {
+		return nil, nil
+	}
+	// G returns a closure H(yield)
+	var h *ssa.Function
+	for _, rv := range flatResults(g, 0) {
+		if ct, isCT := rv.(*ssa.ChangeType); isCT { // func literal converted to iter.Seq[T]
+			rv = ct.X
+		}
+		mc, ok := rv.(*ssa.MakeClosure)
+		if !ok {
+			return nil, nil
+		}
+		h, _ = mc.Fn.(*ssa.Function)
+	}
+	if h == nil || len(h.Params) == 0 {
+		return nil, nil
+	}
+	yield := ssa.Value(h.Params[0])
+	var srcParam *ssa.Parameter
+	var guards map[string]bool
+	okAll, n := true, 0
+	eachInstr(h, func(in ssa.Instruction) {
+		cc := getCall(in)
+		if cc == nil || cc.Value != yield || len(cc.Args) != 1 {
+			return
+		}
+		n++
+		v := cc.Args[0]
+		s := elemSource(v)
+		if s == nil {
+			okAll = false
+			return
+		}
+		// the iterated slice inside the closure: a load of the captured cell of one of G's parameters (stop at G's
+		// parameter; resolveOrigin would run on into G's only caller)
+		var gp *ssa.Parameter
+		if ld, isLd := s.(*ssa.UnOp); isLd && ld.Op == token.MUL {
+			if fv, isFV := ld.X.(*ssa.FreeVar); isFV {
+				eachInstr(g, func(gi ssa.Instruction) {
+					mc, isMC := gi.(*ssa.MakeClosure)
+					if !isMC || mc.Fn != ssa.Value(h) {
+						return
+					}
+					for i, f2 := range h.FreeVars {
+						if f2 != fv || i >= len(mc.Bindings) {
+							continue
+						}
+						if cell, isA := mc.Bindings[i].(*ssa.Alloc); isA {
+							if st := cellStores(cell); len(st) == 1 {
+								gp, _ = st[0].(*ssa.Parameter)
+							}
+						}
+					}
+				})
+			}
+		}
+		if prmS, isPS := s.(*ssa.Parameter); isPS {
+			gp = prmS
+		}
+		if gp == nil || gp.Parent() != g {
+			okAll = false
+			return
+		}
+		if srcParam != nil && srcParam != gp {
+			okAll = false
+			return
+		}
+		srcParam = gp
+		gs := guardsAt(in.Block(), v)
+		if guards == nil {
+			guards = gs
+		} else {
+			guards = intersect(guards, gs)
+		}
+	})
+	if os.Getenv("OLLACHECK_DEBUG") != "" {
+		fmt.Fprintln(os.Stderr, "DBG yieldedFrom", fname(body), "g", fname(g), "h", fname(h), "okAll", okAll, "n", n, "srcParam", srcParam)
+	}
+	if !okAll || n == 0 || srcParam == nil {
+		return nil, nil
+	}
+	for i, gp := range g.Params {
+		if gp == srcParam && i < len(seqCall.Call.Args) {
+			return seqCall.Call.Args[i], guards
+		}
+	}
+	return nil, nil
+}
+
+// iteratorYieldSites: for the parameter of a range-over-func loop body, the yield calls inside the iterator's closure.
+func iteratorYieldSites(c *Ctx, e ssa.Value) []ssa.Instruction {
+	prm, ok := e.(*ssa.Parameter)
+	if !ok {
+		return nil
+	}
+	body := prm.Parent()
+	outer := body.Parent()
+	if outer == nil {
+		return nil
+	}
+	var seqCall *ssa.Call
+	eachInstr(outer, func(in ssa.Instruction) {
+		call, ok := in.(*ssa.Call)
+		if !ok || len(call.Call.Args) != 1 {
+			return
+		}
+		if mc, ok := call.Call.Args[0].(*ssa.MakeClosure); ok && mc.Fn == ssa.Value(body) {
+			if sc, ok := call.Call.Value.(*ssa.Call); ok {
+				seqCall = sc
+			}
+		}
+	})
+	if seqCall == nil {
+		return nil
+	}
+	g := seqCall.Call.StaticCallee()
+	if g == nil || g.Blocks == nil || !c.inRepo(g) {
+		return nil
+	}
+	var out []ssa.Instruction
+	for _, rv := range flatResults(g, 0) {
+		if ct, isCT := rv.(*ssa.ChangeType); isCT {
+			rv = ct.X
+		}
+		mc, ok := rv.(*ssa.MakeClosure)
+		if !ok {
+			return nil
+		}
+		h, _ := mc.Fn.(*ssa.Function)
+		if h == nil || len(h.Params) == 0 {
+			return nil
+		}
+		eachInstr(h, func(in ssa.Instruction) {
+			if cc := getCall(in); cc != nil && cc.Value == ssa.Value(h.Params[0]) {
+				out = append(out, in)
+			}
+		})
+	}
+	return out
 }
